@@ -82,6 +82,7 @@ func runC06(p *core.Prog, r *core.Result) {
 		"R6.4 wait loop / wake-up discipline of module; data and err are written before loaded is published",
 		"R6.5 module code is executed only by (*module).load, which is reached only from the insert branch of the registry",
 		"R6.6 the cyclic-dependency error of wait is produced only where the chain walk met the waiter",
+		"R6.8 the loading chain is walked (by wait or a helper) only after the waiter has published its own edge: of two loaders closing a cycle concurrently, the later one sees the whole cycle",
 		"R6.7 the loader that registered a module publishes its result (done) on every exit, including failures before execution",
 	}
 	r.NotDecided = []string{"termination and deadlock-freedom under every interleaving of the loader goroutines", "equality of the resulting target and flag sets across interleavings"}
@@ -350,69 +351,161 @@ func runC06(p *core.Prog, r *core.Result) {
 	}
 	r.Floor("R6.5", nl, 1, "callers of (*module).load")
 
-	// R6.6 cyclic error only on loading == waiter
-	wp := wait.Params[1]
+	// R6.6 cyclic error only on loading == waiter. The fresh error is fabricated in wait (which then has a waiter
+	// parameter) or, when the chain walk lives in a helper called by loadModule, in loadModule itself.
 	nc := 0
-	walkFn, walkParam := wait, wp
-	for _, ret := range core.ReturnsOf(wait) {
-		vals := core.RetVals(ret)
-		if len(vals) != 2 {
-			continue
-		}
-		if _, isCall := vals[1].(*ssa.Call); !isCall {
-			continue
-		}
-		nc++
-		ok := p.FactsAt(ret).Find(func(c ssa.Value, v bool) bool {
-			if reachedParam(c, v, wp) {
-				return true
+	var walkFn *ssa.Function
+	var walkParam *ssa.Parameter
+	type site struct {
+		fn *ssa.Function
+		wp *ssa.Parameter
+	}
+	var sites []site
+	if len(wait.Params) > 1 {
+		sites = append(sites, site{wait, wait.Params[1]})
+	}
+	sites = append(sites, site{loadModule, loadModule.Params[1]})
+	for _, st := range sites {
+		for _, ret := range core.ReturnsOf(st.fn) {
+			vals := core.RetVals(ret)
+			if len(vals) != 2 {
+				continue
 			}
-			// or a helper that reports whether the chain reaches the waiter: every `return true` of the helper is
-			// under "element == its waiter parameter"
-			call, isCall := c.(*ssa.Call)
-			if !isCall || !v {
-				return false
+			if _, isCall := vals[1].(*ssa.Call); !isCall {
+				continue
 			}
-			h := core.Callee(call)
-			if h == nil || !core.InModule(h) || h.Blocks == nil {
-				return false
-			}
-			for i, a := range call.Call.Args {
-				if a != ssa.Value(wp) || i >= len(h.Params) {
+			wf, wprm, ok := cyclicFact(p, ret, st.wp)
+			if st.fn == loadModule {
+				// loadModule has other fresh errors; the cyclic one is the one decided by a chain-walk helper
+				if !ok {
 					continue
 				}
-				hp := h.Params[i]
-				all, some := true, false
-				for _, hr := range core.ReturnsOf(h) {
-					hv := core.RetVals(hr)
-					if len(hv) != 1 {
-						all = false
-						continue
-					}
-					if b, isConst := core.ConstBool(hv[0]); isConst {
-						if !b {
-							continue
-						}
-						some = true
-						if !p.FactsAt(hr).Find(func(c2 ssa.Value, v2 bool) bool { return reachedParam(c2, v2, hp) }) {
-							all = false
-						}
-					} else {
-						all = false
-					}
-				}
-				if all && some {
-					walkFn, walkParam = h, hp
+			}
+			nc++
+			if ok {
+				walkFn, walkParam = wf, wprm
+			}
+			r.Check(ok, "R6.6", fname(st.fn)+"#cyclic-error", p.InstrPos(ret), "the fresh error is returned only where a module on the loading chain is the waiter itself", "a cyclic-dependency error is fabricated without the chain having reached the waiter: acyclic load graphs can fail")
+		}
+	}
+	r.Floor("R6.6", nc, 1, "fresh cyclic-error returns (wait / loadModule)")
+	// the chain walk advances: the loop variable is reassigned from getLoading of the *current* chain element
+	if walkFn != nil {
+		checkChainWalk(p, r, walkFn, walkParam)
+	} else {
+		r.Unk("R6.6", "dawn#chain-walk", "-", "no chain walk that decides the cyclic-dependency error was found")
+	}
+
+	// R6.8 the chain walk runs after the waiter has published its own edge (the loader that closes a cycle last
+	// must be able to see the whole cycle; checking first lets two loaders both pass and then both wait)
+	getLoading := p.Func("", "module", "getLoading")
+	walks := func(f *ssa.Function) bool {
+		for g := range staticClosure(p, f) {
+			if g == getLoading {
+				continue
+			}
+			for _, c := range core.Calls(g) {
+				if core.Callee(c) == getLoading {
 					return true
 				}
 			}
-			return false
-		})
-		r.Check(ok, "R6.6", "dawn.(*module).wait#cyclic-error", p.InstrPos(ret), "the fresh error is returned only where a module on the loading chain is the waiter itself", "wait fabricates an error without the chain having reached the waiter: acyclic load graphs can fail")
+		}
+		return false
 	}
-	r.Floor("R6.6", nc, 1, "fresh-error returns of (*module).wait")
-	// the chain walk advances: the loop variable is reassigned from getLoading of the *current* chain element
-	checkChainWalk(p, r, walkFn, walkParam)
+	nWalk := 0
+	if getLoading == nil {
+		r.Unk("R6.8", "anchor:dawn.(*module).getLoading", "-", "not found")
+	} else {
+		for _, c := range core.Calls(loadModule) {
+			cal := core.Callee(c)
+			if cal == nil || cal == getLoading || cal.Pkg != loadModule.Pkg || cal.Blocks == nil || len(c.Common().Args) == 0 || !walks(cal) {
+				continue
+			}
+			ci := c.(ssa.Instruction)
+			target := c.Common().Args[0]
+			nWalk++
+			okPub := false
+			for _, b := range loadModule.Blocks {
+				iff, ok := b.Instrs[len(b.Instrs)-1].(*ssa.If)
+				if !ok || b == ci.Block() || !b.Dominates(ci.Block()) {
+					continue
+				}
+				cmp, ok := iff.Cond.(*ssa.BinOp)
+				if !ok || !((cmp.X == ssa.Value(waiterP) && core.IsNilConst(cmp.Y)) || (cmp.Y == ssa.Value(waiterP) && core.IsNilConst(cmp.X))) {
+					continue
+				}
+				nonNilSucc := b.Succs[0]
+				if cmp.Op == token.EQL {
+					nonNilSucc = b.Succs[1]
+				} else if cmp.Op != token.NEQ {
+					continue
+				}
+				isPub := func(x ssa.Instruction) bool {
+					cc, ok := x.(*ssa.Call)
+					return ok && core.Callee(cc) == setLoading && cc.Call.Args[0] == ssa.Value(waiterP) && cc.Call.Args[1] == target
+				}
+				if !core.BlockReachesAvoiding(nonNilSucc, ci, func(ssa.Instruction) bool { return false }) {
+					continue
+				}
+				if !core.BlockReachesAvoiding(nonNilSucc, ci, isPub) {
+					okPub = true
+				}
+			}
+			r.Check(okPub, "R6.8", "dawn.(*Project).loadModule#walk-after-publish:"+cal.Name(), p.InstrPos(ci), "the loading chain is walked only after the waiter published its own edge", "the loading chain of m is walked before waiter.setLoading(m): two loaders that close a cycle at the same time both find no cycle, both register and both wait forever (Load hangs instead of reporting the cycle)")
+		}
+	}
+	r.Floor("R6.8", nWalk, 1, "chain-walk call sites in loadModule")
+}
+
+// cyclicFact: at ret, a must-fact says that the loading chain reached the waiter wp: either a direct comparison,
+// or a true result of a helper all of whose `return true` are under "chain element == its waiter parameter".
+// Returns the function containing the walk and its waiter parameter.
+func cyclicFact(p *core.Prog, ret ssa.Instruction, wp *ssa.Parameter) (*ssa.Function, *ssa.Parameter, bool) {
+	walkFn, walkParam := ret.Parent(), wp
+	ok := p.FactsAt(ret).Find(func(c ssa.Value, v bool) bool {
+		if reachedParam(c, v, wp) {
+			return true
+		}
+		call, isCall := c.(*ssa.Call)
+		if !isCall || !v {
+			return false
+		}
+		h := core.Callee(call)
+		if h == nil || !core.InModule(h) || h.Blocks == nil {
+			return false
+		}
+		for i, a := range call.Call.Args {
+			if a != ssa.Value(wp) || i >= len(h.Params) {
+				continue
+			}
+			hp := h.Params[i]
+			all, some := true, false
+			for _, hr := range core.ReturnsOf(h) {
+				hv := core.RetVals(hr)
+				if len(hv) != 1 {
+					all = false
+					continue
+				}
+				if b, isConst := core.ConstBool(hv[0]); isConst {
+					if !b {
+						continue
+					}
+					some = true
+					if !p.FactsAt(hr).Find(func(c2 ssa.Value, v2 bool) bool { return reachedParam(c2, v2, hp) }) {
+						all = false
+					}
+				} else {
+					all = false
+				}
+			}
+			if all && some {
+				walkFn, walkParam = h, hp
+				return true
+			}
+		}
+		return false
+	})
+	return walkFn, walkParam, ok
 }
 
 // reachedParam: the condition `x == prm` (x not nil) has value v == true, or `x != prm` false.
